@@ -223,6 +223,20 @@ CHECKS = {
              "available offline).",
         technique="TLA+ spec (Features) over the extracted cfg gating graph + trace validation of real cargo builds",
         design="4 (C20)"),
+    "C01": dict(
+        text="TLC model-checks Generics.tla: the impl-header construction families of utils.rs against the property's structural "
+             "clauses (own generic arguments on the type itself and nowhere else, added names in scope, lifetimes first and no "
+             "defaults, fresh names disjoint) for every well-formed parameter list of up to 3 (quick) / 4 (thorough) parameters. "
+             "Every derive x its base items x every such parameter list (+ where-clauses) is expanded in-process and the same four "
+             "clauses are evaluated on the REAL impl headers (parsed with syn); every code path of the 50 derives - as written, "
+             "with #[deprecated] fields/variants, uninhabited field types, raw identifiers, and compile-valid generic forms - is "
+             "compiled with the real derive under #![deny(warnings)], a diagnostic counting only if the derive-less twin does "
+             "not show it.",
+        note="field types per derive come from fixed tables; `compiles` is rustc's verdict on these programs (the model cannot "
+             "replace the compiler); the generic parameter lists are applied syntactically for the header checks and by hand-"
+             "written compile-valid forms for rustc.",
+        technique="TLA+ spec (Generics) + TLC parameter lists, header clauses on real expansions, rustc deny(warnings) probes",
+        design="4 (C01)"),
 }
 
 NOT_YET = {}
